@@ -4,23 +4,5 @@ package c07
 // findings/C07.json. The clean stream of the generator does not produce them;
 // the cell block and the dirty minority stream do.
 var avoid = map[string]bool{
-	"exit=go through=mapc-lambda.body":             true,
-	"exit=go through=mapc-lambda.last":             true,
-	"exit=go through=mapl-lambda.body":             true,
-	"exit=go through=mapl-lambda.last":             true,
-	"exit=go through=maplist-lambda.body":          true,
-	"exit=go through=maplist-lambda.last":          true,
-	"exit=go to=none":                              true,
-	"exit=return through=mapc-lambda.body":         true,
-	"exit=return through=mapc-lambda.last":         true,
-	"exit=return through=mapl-lambda.body":         true,
-	"exit=return through=mapl-lambda.last":         true,
-	"exit=return through=maplist-lambda.body":      true,
-	"exit=return through=maplist-lambda.last":      true,
-	"exit=return-from through=mapc-lambda.body":    true,
-	"exit=return-from through=mapc-lambda.last":    true,
-	"exit=return-from through=mapl-lambda.body":    true,
-	"exit=return-from through=mapl-lambda.last":    true,
-	"exit=return-from through=maplist-lambda.body": true,
-	"exit=return-from through=maplist-lambda.last": true,
+	"exit=go to=none": true,
 }
